@@ -510,7 +510,48 @@ var nilExempt = map[string]string{
 	"internal/flatten/replace.rewriteParentRef/container.StatusCodeResponses": "the key `…/responses/<code>/schema` is produced by the analyzer from an existing entry of this very map, so the map is non-nil",
 }
 
+// structuralExempt: the two frozen exemptions of the rewriters, recognised by construct rather than by name:
+// inside the replace package, through a holder obtained by a type switch on a value resolved from an analyzer
+// key, (1) storing into <responses>.StatusCodeResponses and (2) dereferencing <schemaOrX>.Schema.
+func (f *nilFn) structuralExempt(e ast.Expr, store bool) (string, bool) {
+	if !strings.HasSuffix(f.fi.Pkg.PkgPath, "/internal/flatten/replace") {
+		return "", false
+	}
+	sel, ok := core.Unparen(e).(*ast.SelectorExpr)
+	if !ok {
+		return "", false
+	}
+	// the holder is a type-switch variable, or a parameter that receives one
+	holder := core.ObjOf(f.info, sel.X)
+	if holder == nil {
+		return "", false
+	}
+	fromSwitch := false
+	for _, d := range f.e.c.P.Locals(f.fi).Defs[holder] {
+		if d.Kind == core.DefTypeSwitch {
+			fromSwitch = true
+		}
+	}
+	if _, isParam := f.params[holder]; isParam {
+		fromSwitch = true
+	}
+	if !fromSwitch {
+		return "", false
+	}
+	switch {
+	case store && sel.Sel.Name == "StatusCodeResponses" && core.IsSpecType(f.info.TypeOf(sel.X), "Responses"):
+		return nilExempt["internal/flatten/replace.rewriteParentRef/container.StatusCodeResponses"], true
+	case !store && sel.Sel.Name == "Schema" && (core.IsSpecType(f.info.TypeOf(sel.X), "SchemaOrArray") || core.IsSpecType(f.info.TypeOf(sel.X), "SchemaOrBool")):
+		return nilExempt["internal/flatten/replace.UpdateRefWithSchema/refable.Schema"], true
+	}
+	return "", false
+}
+
 func (f *nilFn) unguardedAt(e ast.Expr, k, kind, what string, pos token.Pos, store bool, short string) {
+	if why, ok := f.structuralExempt(e, store); ok {
+		f.e.exempt[f.fi.QName()+"/"+exprStr(e)] = nilViol{fn: f.fi, pos: pos, what: why}
+		return
+	}
 	origin := fmt.Sprintf("%s: %s of %s", f.fi.QName(), what, exprStr(e))
 	if strings.HasPrefix(k, "C") {
 		// rooted at a parameter of a local closure: a requirement on its call sites
@@ -558,7 +599,7 @@ func (f *nilFn) unguardedAt(e ast.Expr, k, kind, what string, pos token.Pos, sto
 	if !f.collect {
 		return
 	}
-	if why, ok := nilExempt[f.fi.QName()+"/"+exprStr(e)]; ok {
+	if why, ok := f.structuralExempt(e, store); ok {
 		f.e.exempt[f.fi.QName()+"/"+exprStr(e)] = nilViol{fn: f.fi, pos: pos, what: why}
 		return
 	}
@@ -1128,6 +1169,11 @@ func (f *nilFn) checkReqNamed(arg ast.Expr, r nilReq, st nstate, pos token.Pos, 
 	}
 	what := fmt.Sprintf("%s%s is used by %s without a nil test (%s)", exprStr(arg), r.rel, calleeName, r.origin)
 	full := ak + r.rel
+	if strings.HasPrefix(full, "C") {
+		// rooted at a parameter of a local closure: becomes a requirement of that closure
+		f.unguardedAt(arg, full, "field", what, pos, r.store, what)
+		return
+	}
 	if strings.HasPrefix(full, "P") {
 		idx, rel := splitParamKey(full)
 		if !f.fi.Obj.Exported() && strings.Count(rel, ".") <= 3 {
